@@ -29,7 +29,9 @@ RULE = (
 ASSUMPTIONS = [
     "metric_tensor on a *tape* returns the tensor with respect to the trainable parameters of the (expanded) tape, so the tape kind only uses "
     "gates that are not expanded (single parameter, single-term generator); decomposed gates are covered through QNodes, where the "
-    "classical Jacobian of the expansion is part of the transform.",
+    "classical Jacobian of the expansion is part of the transform. Constant gates stay in the domain whatever the transform does with them: "
+    "argnum is documented as indices into the parameters of the given tape (a constant PhaseShift that allow_nonunitary=False expands "
+    "moves them: feature argnum_vs_expansion, known finding).",
     "block-diag / diag on QNodes use only non-expanded gates, because the layer partition is defined on the expanded tape.",
     "Analytic execution on default.qubit with a free auxiliary wire; generators are Hermitian (all pool gates are unitary).",
     "One QNode argument (array); the output layout for several arguments is not specified precisely enough ('can vary widely').",
@@ -253,7 +255,7 @@ def _compare(spec, got, exp, err, sig, feats, what):
     d = np.abs(got - exp)
     if not np.all(np.isfinite(got)) or d.max() > TOL * scale + 10 * err:
         i = np.unravel_index(np.argmax(d), d.shape)
-        known_class = any(feats.get(k) for k in ("phaseshift_cross_term", "ctrl_rotation_cov", "qfi_expanded_gate", "adjoint_jax_multipar"))
+        known_class = any(feats.get(k) for k in ("phaseshift_cross_term", "ctrl_rotation_cov", "qfi_expanded_gate", "adjoint_jax_multipar", "argnum_vs_expansion"))
         if not known_class and not fresh.confirm(ID, spec, ("value", sig.split(":")[0])):
             raise Reject("violation not reproduced in a fresh process (state left by an earlier case)")
         raise Viol("value", f"{sig} {what}: g[{i[0]},{i[1]}] = {got[i]:.9g}, reference {exp[i]:.9g}; got={np.round(got, 6).tolist()} ref={np.round(exp, 6).tolist()}",
@@ -283,6 +285,31 @@ def _finding_features(prog, fn, approx, allow_nonunitary, iface=None):
         # F17: adjoint_metric_tensor under jax leaves a trainable multi-parameter gate (Rot) unexpanded
         "adjoint_jax_multipar": fn in ("adjoint_metric_tensor", "quantum_fisher") and iface == "jax" and bool(names & {"Rot", "U2", "U3", "CRot"}),
     }
+
+
+def _argnum_vs_expansion(prog, kw, train):
+    """F18 feature, computed from the input only. `argnum` is documented as indices into the parameters of the tape that is handed to
+    qp.metric_tensor, but the transform looks them up in its internally expanded tape. With approx=None, allow_nonunitary=False a
+    *constant* PhaseShift(c) is expanded into RZ(c) GlobalPhase(-c/2) (two parameters instead of one), which moves every later
+    tape-parameter index up by one. Returns "rejected" when an index of argnum is then no trainable index of the expanded tape
+    (ValueError), "other-selection" when all are but they designate other gates (silently other rows/columns), else False."""
+    if kw["argnum"] is None or kw["approx"] is not None or kw["allow_nonunitary"]:
+        return False
+    moved, k, shift = {}, 0, 0
+    for o in prog["ops"]:
+        exprs = hybrid.op_exprs(o)
+        for _ in exprs:
+            moved[k] = k + shift
+            k += 1
+        if o["op"] == "PhaseShift" and exprs and all(hybrid.is_const(e) for e in exprs):
+            shift += 1
+    sel = [train[i] for i in kw["argnum"]]
+    new_train = [moved[t] for t in train]
+    if any(a not in new_train for a in sel):
+        return "rejected"
+    if [t in sel for t in train] != [t in sel for t in new_train]:
+        return "other-selection"
+    return False
 
 
 def _gate_labels(prog):
@@ -327,7 +354,8 @@ def _check_tape(spec):
     if approx is None and not kw["allow_nonunitary"] and "PhaseShift" in _trainable_names(prog):
         raise Reject("allow_nonunitary=False expands PhaseShift: the tape-level result refers to the expanded parameters")
     feats = {"kind": "tape", "approx": approx or "full", "allow_nonunitary": kw["allow_nonunitary"], "argnum": kw["argnum"] is not None,
-             **_finding_features(prog, "metric_tensor", approx, kw["allow_nonunitary"])}
+             **_finding_features(prog, "metric_tensor", approx, kw["allow_nonunitary"]),
+             "argnum_vs_expansion": _argnum_vs_expansion(prog, kw, train)}
     sig = f"metric_tensor:tape:{approx or 'full'}"
 
     def run():
